@@ -161,11 +161,44 @@ fn run_one(kind: &str, sub: Sub, seed: u64, replay: Option<Vec<u8>>) -> (sched::
         let mut orng = Rng::new(seed.wrapping_mul(131).wrapping_add(p as u64));
         let (ch, sh, prod_done, susp_fifo) = (ch.clone(), sh.clone(), prod_done.clone(), susp_fifo.clone());
         let kind = kind.to_string();
+        let fine = sub == Sub::Fine || sub == Sub::Susp;
+        let no_mov_async = sub == Sub::Cancel;
+        let others_done = prod_done.clone();
+        let nprod_total = np;
+        let is_susp = sub == Sub::Susp;
+        let has_async = kind != "mcrossbeam";
         bodies.push(Box::new(move |ctx| {
+            if is_susp && p == 0 && has_async {
+                // C20: one asynchronous send stays suspended until every other producer has finished its work
+                let v = 7000u32;
+                let gate = Arc::new(AtomicBool::new(false));
+                let pos = ctx.call(p, &format!("{} {v}", if kind.starts_with('z') { "asynczc" } else { "asyncmov" }));
+                let mut fut = std::mem::ManuallyDrop::new(ch.async_start(v, gate.clone()));
+                let w: Waker = Arc::new(FlagWaker(AtomicBool::new(false))).into();
+                let mut cx = Context::from_waker(&w);
+                match fut.as_mut().poll(&mut cx) {
+                    Poll::Ready(ok) => { ctx.ret(if ok { "ok" } else { "full" }); sh.lock().unwrap().evs.push(Ev { who: p, what: if ok { "sent".into() } else { "rejected".into() }, v, pos }); }
+                    Poll::Pending => {
+                        ctx.ret("susp");
+                        sh.lock().unwrap().evs.push(Ev { who: p, what: "suspended".into(), v, pos });
+                        let od = others_done.clone();
+                        ctx.block_until(Box::new(move || od.load(SeqCst) == nprod_total - 1));
+                        sh.lock().unwrap().evs.push(Ev { who: p, what: "others_finished".into(), v, pos });
+                        gate.store(true, SeqCst);
+                        ctx.call(p, "resume");
+                        match fut.as_mut().poll(&mut cx) {
+                            Poll::Ready(ok) => { ctx.ret(if ok { "ok" } else { "full" }); sh.lock().unwrap().evs.push(Ev { who: p, what: "sent".into(), v, pos }); }
+                            Poll::Pending => panic!("send_with_async still pending after its setter completed"),
+                        }
+                    }
+                }
+                prod_done.fetch_add(1, SeqCst);
+                return
+            }
             for i in 0..nops {
                 let v = (p as u32 + 1) * 1000 + i as u32;
-                let c = orng.below(10);
-                let plain_ok = susp_fifo.lock().unwrap().is_empty() || kind != "matomic";
+                let c = if is_susp { orng.below(6) } else { orng.below(10) };
+                let plain_ok = is_susp || susp_fifo.lock().unwrap().is_empty() || kind != "matomic";
                 if c < 4 && plain_ok {
                     let pos = ctx.call(p, &format!("send {v}"));
                     let ok = ch.send(v);
@@ -176,7 +209,7 @@ fn run_one(kind: &str, sub: Sub, seed: u64, replay: Option<Vec<u8>>) -> (sched::
                     let ok = ch.send_with(v);
                     ctx.ret(if ok { "ok" } else { "full" });
                     sh.lock().unwrap().evs.push(Ev { who: p, what: if ok { "sent".into() } else { "rejected".into() }, v, pos });
-                } else if c < 9 && (zc || mov_async_ok) && kind != "mcrossbeam" {
+                } else if c < 9 && (zc || (mov_async_ok && !no_mov_async)) && kind != "mcrossbeam" {
                     // asynchronous send: poll once (reserves / allocates, suspends), yield for a while, resume
                     let gate = Arc::new(AtomicBool::new(false));
                     let pos = ctx.call(p, &format!("{} {v}", if zc { "asynczc" } else { "asyncmov" }));
@@ -190,8 +223,9 @@ fn run_one(kind: &str, sub: Sub, seed: u64, replay: Option<Vec<u8>>) -> (sched::
                             if !zc { susp_fifo.lock().unwrap().push(p); }
                             // stay suspended for a random number of scheduler turns
                             for _ in 0..orng.below(4) { ctx.yield_point("h.susp", 0); }
-                            if !zc {
-                                // movable atomic: publications complete in reservation order -- wait for our turn
+                            if !zc && !fine {
+                                // movable atomic: publications complete in reservation order -- wait for our turn (at the fine
+                                // granularity the wait inside publish_leaked_internal is itself visible to the scheduler)
                                 let (f2, me) = (susp_fifo.clone(), p);
                                 ctx.block_until(Box::new(move || f2.lock().unwrap().first() == Some(&me)));
                             }
@@ -201,7 +235,7 @@ fn run_one(kind: &str, sub: Sub, seed: u64, replay: Option<Vec<u8>>) -> (sched::
                                 Poll::Ready(ok) => { ctx.ret(if ok { "ok" } else { "full" }); sh.lock().unwrap().evs.push(Ev { who: p, what: "sent".into(), v, pos }); }
                                 Poll::Pending => panic!("send_with_async still pending after its setter completed"),
                             }
-                            if !zc { susp_fifo.lock().unwrap().remove(0); }
+                            if !zc { let mut f = susp_fifo.lock().unwrap(); if let Some(i) = f.iter().position(|x| *x == p) { f.remove(i); } }
                         }
                     }
                 } else if plain_ok {
@@ -329,18 +363,41 @@ fn run_one(kind: &str, sub: Sub, seed: u64, replay: Option<Vec<u8>>) -> (sched::
             if !all_cancelled { for e in &sent { if !seen.contains_key(&e.v) { viol.push(("lost".into(), format!("event {} was accepted but never yielded although the streams were driven until the channel was empty", e.v))); } } }
             if ch.running() != 0 && false { viol.push(("running_count".into(), format!("running streams count {} after all ended", ch.running()))); }
         }
+        Verdict::Deadlock if s.evs.iter().any(|e| e.what == "suspended") && !s.evs.iter().any(|e| e.what == "others_finished") => {
+            viol.push(("blocked_by_suspended_send".into(), format!("while one send_with_async stayed suspended, another operation on the {kind} channel never returned (every other thread is waiting for it)")));
+        }
         Verdict::Deadlock => {
             if !drained.load(SeqCst) {
                 let pending = ch.pending();
                 let c = cancelled.lock().unwrap().clone();
                 // which streams are parked and un-notified
-                viol.push((if sub == Sub::Cancel && !c.is_empty() && pending == 0 { "cancelled_stream_never_ended" } else { "lost_wakeup" }.into(),
+                viol.push((if sub == Sub::Cancel && !c.is_empty() && pending == 0 { "cancelled_stream_never_ended" }
+                           else if sub == Sub::Cancel && !c.is_empty() && c.len() < k { "untargeted_stream_starved" } else { "lost_wakeup" }.into(),
                            format!("every producer returned, every live stream is parked with its waker not invoked, and {pending} accepted event(s) are still pending (kind {kind}, N={n}, MAX_STREAMS={mx}, {k} stream(s))")));
             } else {
                 viol.push(("cancelled_stream_never_ended".into(), "a stream that was told to end stayed parked: its waker was never invoked after the request".into()));
             }
         }
-        ref v => viol.push(("no_progress".into(), format!("run ended with verdict {v:?}: an operation never returned"))),
+        ref v => {
+            let susp = s.evs.iter().any(|e| e.what == "suspended") && !s.evs.iter().any(|e| e.what == "others_finished");
+            if susp { viol.push(("blocked_by_suspended_send".into(), format!("while one send_with_async stayed suspended, another operation on the {kind} channel never returned (scheduler verdict {v:?}: it keeps re-trying an access only the suspended producer can release)"))); }
+            else { viol.push(("no_progress".into(), format!("run ended with verdict {v:?}: an operation never returned"))); }
+        }
+    }
+    // cause class of a lost wake-up: what did the last publication do?
+    if let Some(v) = viol.iter_mut().find(|v| v.0 == "lost_wakeup") {
+        let tr = &outcome.trace;
+        // the last completed publishing call
+        let mut cause = "unclassified".to_string();
+        if let Some(rpos) = tr.iter().rposition(|l| l.starts_with("ret ") && l.ends_with(" ok")) {
+            let t = tr[rpos].split(' ').nth(1).unwrap().to_string();
+            let cpos = tr[..rpos].iter().rposition(|l| l.starts_with(&format!("call {t} "))).unwrap_or(0);
+            let op = tr[cpos].split(' ').nth(2).unwrap_or("?").to_string();
+            let wakes: Vec<&String> = tr[cpos..rpos].iter().filter(|l| l.starts_with(&format!("pt {t} sm.wake "))).collect();
+            cause = if wakes.is_empty() { format!("entry={op} no_wake_call") } else { format!("entry={op} woke_stream_{}", wakes[0].split(' ').nth(3).unwrap_or("?")) };
+        }
+        let am = tr.iter().any(|l| l.contains(" asyncmov "));
+        v.1 = format!("[{cause} async_mov_used={am}] {}", v.1);
     }
     for (i, p) in outcome.panics.iter().enumerate() { if let Some(m) = p { viol.push(("panic".into(), format!("thread {i} panicked: {m}"))); } }
     drop(s);
